@@ -57,6 +57,18 @@ func c05Scopes(cfg deriveCfg) {
 	name := strChoice("metric", cfg.maxStr)
 	ca, cb := sa.Counter(name), sb.Counter(name)
 	verifrt.Assert("c05.same-metric-twice", sa.Counter(name) == ca)
+	// the same holds for every kind - for histograms whatever buckets the later request names
+	// (the buckets of an existing histogram are those it was first created with)
+	switch verifrt.Choose("twice-kind", 3) {
+	case 0:
+		verifrt.Assert("c05.same-gauge-twice", sa.Gauge(name) == sa.Gauge(name))
+	case 1:
+		verifrt.Assert("c05.same-timer-twice", sa.Timer(name) == sa.Timer(name))
+	case 2:
+		h1 := sa.Histogram(name, ValueBuckets{1, 2})
+		verifrt.Assert("c05.same-histogram-twice", verifrt.And(h1 == sa.Histogram(name, ValueBuckets{1, 2}),
+			verifrt.And(h1 == sa.Histogram(name, ValueBuckets{5}), h1 == sa.Histogram(name, nil))))
+	}
 	if samePtr {
 		verifrt.Assert("c05.shared-scope-shares-metric", ca == cb)
 	} else {
